@@ -105,6 +105,13 @@ def subst_value(v, subst):
         return v
     if isinstance(v, tuple):
         return tuple(subst_value(x, subst) for x in v)
+    from vc.pyvc.interp import MDict as _MD
+    if isinstance(v, _MD) and not v.nodes:
+        out = _MD({k: subst_value(x, subst) for k, x in v.d.items()})
+        rc = getattr(v, 'rec_copy', None)
+        if rc is not None:
+            out.rec_copy = sv(rc, subst)
+        return out
     if isinstance(v, SObj):
         new = {k: subst_value(x, subst) for k, x in v.attrs.items()}
         if all(new[k] is v.attrs[k] for k in new):
